@@ -372,6 +372,66 @@ def _task_fresh(task):
     return _task(task)
 
 
+def config_list_pass(rep, variant):
+    """the advertised list itself, judged independently of the library's own parsing: under a positive list exactly the named mechanisms the build supports,
+    under a negative list everything but the named ones - also when the list contains a name this build does not know (first / middle / last), blanks
+    or a repeated name.  returns the number of configurations compared"""
+    import shutil
+    from p11mc import p11 as P
+    root = P.scratch_root()
+    n = 0
+    try:
+        def advertised(conf, tag):
+            sd = os.path.join(root, tag)
+            shutil.copytree(os.path.join(root, "base"), sd)
+            P.write_conf(sd, mechanisms=conf)
+            sh = P.Shell(variant, sd)
+            try:
+                p = P.P11(sh)
+                W.ok(p.Initialize(), "init")
+                slot = p.GetSlotList(1, 8)["slots"][0]
+                cnt = p.GetMechanismList(slot, "q")["n"]
+                return set(p.GetMechanismList(slot, cnt + 4)["mechs"])
+            finally:
+                sh.close()
+        os.makedirs(os.path.join(root, "base"))
+        P.write_conf(os.path.join(root, "base"))
+        sh0 = P.Shell(variant, os.path.join(root, "base"))
+        try:
+            class _C:
+                pass
+            c_ = _C(); c_.p = P.P11(sh0)
+            W.two_tokens(c_)
+        finally:
+            sh0.close()
+        full = advertised("ALL", "all")
+        if len(full) < 40:
+            raise RuntimeError("configuration-list pass: only %d mechanisms advertised under ALL" % len(full))
+        names = [x for x in CONFIGS["negative"].lstrip("-").split(",")]
+        named = {getattr(C, x) for x in names}
+        pos_names = CONFIGS["positive"].split(",")
+        pos = {getattr(C, x) for x in pos_names}
+        variants = []
+        for where, lst in (("first", ["CKM_NO_SUCH_MECHANISM_9"] + names), ("middle", names[:5] + ["CKM_NO_SUCH_MECHANISM_9"] + names[5:]), ("last", names + ["CKM_NO_SUCH_MECHANISM_9"]),
+                           ("repeated", names[:3] + names)):
+            variants.append(("negative-list-with-unknown-name-%s" % where if where != "repeated" else "negative-list-with-repeated-name", "-" + ",".join(lst), full - named))
+        for where, lst in (("first", ["CKM_NO_SUCH_MECHANISM_9"] + pos_names), ("last", pos_names + ["CKM_NO_SUCH_MECHANISM_9"])):
+            variants.append(("positive-list-with-unknown-name-%s" % where, ",".join(lst), full & pos))
+        variants.append(("negative-list-plain", "-" + ",".join(names), full - named))
+        variants.append(("positive-list-plain", ",".join(pos_names), full & pos))
+        for tag, conf, want in variants:
+            got = advertised(conf, tag)
+            n += 1
+            if got != want:
+                extra, missing = sorted(got - want), sorted(want - got)
+                rep.add_violation({"signature": "C07|config|%s|advertised-list-differs-from-the-configured-restriction|%s" % (tag, "mechanisms-not-removed" if extra else "mechanisms-missing"),
+                                   "detail": {"slots.mechanisms": conf, "advertised_but_excluded": [C.CKM_NAMES.get(x, hex(x)) for x in extra][:12], "allowed_but_missing": [C.CKM_NAMES.get(x, hex(x)) for x in missing][:12]},
+                                   "history": [], "action": None, "variant": variant, "store": "file", "replay_module": "c07_usage", "config_tag": tag, "property": "C07"})
+    finally:
+        shutil.rmtree(root, ignore_errors=True)
+    return n
+
+
 def main(tier):
     rep = Report("C07", tier, "exploration")
     quick = tier == "quick"
@@ -381,6 +441,7 @@ def main(tier):
     tot, samples, runs = run_matrix(rep, variant, configs, deadline)
     if tot["cells_ok"] < 100:
         rep.harness_errors.append("vacuous: %r" % tot)
+    ncfg = config_list_pass(rep, variant)
     # second part: the always-authenticate clause (checks/c07_aa.py), unmerged DFS over call sequences
     import c07_aa
     from p11mc.core import Explorer, confirm_violations
@@ -394,7 +455,7 @@ def main(tier):
             rep.harness_errors.append("vacuous always-authenticate search: the authenticated path never produced output (%r)" % ex.stats["counters"])
     finally:
         ex.close()
-    rep.coverage = {"evaluations": tot["cells"], "distinct_nontrivial": tot["cells_ok"], "samples": samples[:6], "exhaustive": bool(aa["complete"]), "runs": runs, "variant": variant, "always_authenticate_search": aa,
+    rep.coverage = {"evaluations": tot["cells"], "distinct_nontrivial": tot["cells_ok"], "samples": samples[:6], "exhaustive": bool(aa["complete"]), "runs": runs, "variant": variant, "always_authenticate_search": aa, "configuration_lists_compared": ncfg,
                     "rule": "one evaluation = one (operation | digest-init | generate-key | generate-key-pair) x mechanism x key kind x flag variant x allowed-list "
                             "variant x configuration cell executed on the real library; every CKM_* constant of PKCS#11 v2.40 plus three unknown values is used as "
                             "mechanism; non-trivial = the cell returned CKR_OK (the only-if oracle is evaluated on exactly these)"}
@@ -410,6 +471,17 @@ def replay(rec):
     sys.path.insert(0, P.VERIF + "/tools")
     import build_sut
     build_sut.build(rec["variant"])
+    if rec.get("config_tag"):
+        class _R:
+            v = []
+            def add_violation(self, x): self.v.append(x["signature"])
+        r_ = _R()
+        config_list_pass(r_, rec["variant"])
+        print("recorded:", rec["signature"], "\nobserved:", r_.v)
+        if rec["signature"] in r_.v:
+            print("VIOLATION property=C07 replay=%s" % sys.argv[1])
+            return 1
+        return 0
     check = C07(config=rec["config"])
     root = P.scratch_root()
     try:
